@@ -78,6 +78,14 @@ var encSections = []corpusSection{
 		ef := gen.ValForms[i%7]
 		return listCase(r, i/7 == 1, ef, scalarListLens[li])
 	}},
+	{"longlists", 2 * 4 * 3, func(r *gen.Rand, i int) *corpusCase {
+		// long flat containers of variable-size elements (element count must not be
+		// mistaken for nesting depth or anything else)
+		n := []int{1022, 1023, 1500}[i%3]
+		i /= 3
+		ef := []string{"string", "binary", "*struct", "list"}[i%4]
+		return listCase(r, i/4 == 1, ef, n)
+	}},
 	{"idclasses", len(gen.IDClasses) * 3, func(r *gen.Rand, i int) *corpusCase {
 		id := gen.IDClasses[i/3]
 		req := schema.Req(i % 3)
